@@ -68,6 +68,9 @@ SPECIALS = ["sum_bcast_dense", "sum_expand_dense", "dense_expand", "diag_expand"
             "addeddiag_diag_nobatch", "addeddiag_base_nobatch", "kron_bcast", "blockdiag_expand", "root_expand",
             "chol_expand", "constdiag_expand", "sumbatch_expand", "mul_bcast", "cat_bcast", "masked_expand",
             "triangular_expand", "kernel_param_bcast", "lowrank_expand"]
+# witnesses of defects of the pinned tree (always run, both tiers): see known_findings.d/C07-*.json
+G_SPECIALS = ["constmul_identity", "sum_identity_first", "sum_interp_rect", "kron_interp_batched", "cat_interp_batched",
+              "toeplitz_mid1", "chol_upper", "dense_batch3"]
 SPECIALS_PSD = ["sum_bcast_dense", "sum_expand_dense", "dense_expand", "diag_expand", "toeplitz_expand",
                 "constmul_scalar", "constmul_21", "constmul_expand", "batchrepeat_nobatch", "batchrepeat_b1",
                 "batchrepeat_toeplitz", "addeddiag_diag_nobatch", "addeddiag_base_nobatch", "kron_bcast",
@@ -176,6 +179,12 @@ def grid(quick):
                                                                ("sqrt_inv_matmul", "batched")]
         for fn, kind in fns:
             cells.append(_cell("F", "special", None, True, [2], fn, kind, "rot", chol_mode(fn), special=s))
+    # ---- G: witnesses of the pinned tree's defects (dedicated cells; the seed only picks values)
+    for s in G_SPECIALS:
+        kinds = {"toeplitz_mid1": [("matmul", "batched"), ("matmul", "bcast3")],
+                 "dense_batch3": [("matmul", "mid1"), ("matmul", "smaller")]}.get(s, [("matmul", "batched")])
+        for fn, kind in kinds:
+            cells.append(_cell("G", "special", None, False, [2], fn, kind, "all", "no", special=s))
     for i, c in enumerate(cells):
         c["idx"] = i
     return cells
@@ -285,6 +294,30 @@ def special_expr(rng, name, psd, m):
         a = ob.gen(rng, "Dense", batch=[], m=m, n=2)
         a["t"] = _expanded(a["t"], [2, m, 2])
         return {"cls": "Cat", "ops": [a, ob.gen(rng, "Dense", batch=[2], m=m, n=1)], "dim": -1}
+    if name == "constmul_identity":
+        return {"cls": "ConstantMul", "base": {"cls": "Identity", "n": m, "batch": [2]}, "c": ob.rand_t(rng, [2], 1, 3)}
+    if name == "sum_identity_first":
+        return {"cls": "Sum", "ops": [{"cls": "Identity", "n": m, "batch": [2]}, dense([2])]}
+    if name == "sum_interp_rect":
+        it = ob.gen(rng, "Interpolated", batch=[2], m=m, child="Dense")
+        it["base"] = ob.gen(rng, "Dense", batch=[2], m=2, n=3)
+        for k, sz in (("li", 2), ("ri", 3)):
+            it[k] = dict(it[k], data=[v % sz for v in it[k]["data"]])
+        return {"cls": "Sum", "ops": [it, ob.gen(rng, "Dense", batch=[2], m=ob.shape_of(it)[-2], n=ob.shape_of(it)[-1])]}
+    if name in ("kron_interp_batched", "cat_interp_batched"):
+        it = ob.gen(rng, "Interpolated", batch=[2], m=2, child="Dense")
+        if name == "kron_interp_batched":
+            return {"cls": "Kron", "ops": [it, ob.gen(rng, "Dense", batch=[2], m=2, n=2)]}
+        return {"cls": "Cat", "ops": [it, ob.gen(rng, "Dense", batch=[2], m=1, n=ob.shape_of(it)[-1])], "dim": -2}
+    if name == "toeplitz_mid1":
+        return ob.gen(rng, "Toeplitz", batch=[2, 1], m=m)
+    if name == "dense_batch3":
+        return ob.gen(rng, "Dense", batch=[2, 2, 3], m=2, n=2)
+    if name == "chol_upper":
+        a = ob.gen(rng, "Chol", batch=[2], m=m)
+        if not a["upper"]:
+            a = {"cls": "Chol", "t": ob.from_torch(ob.tt(a["t"]).mT.contiguous()), "upper": True}
+        return a
     if name == "masked_expand":
         e = ob.gen(rng, "Masked", batch=[], m=m, child="Dense")
         e["base"]["t"] = _expanded(e["base"]["t"], [2] + e["base"]["t"]["shape"])
@@ -387,6 +420,8 @@ def validate(e, cell, fn):
     if Lv.build_err is not None:
         return "build raises: " + Lv.build_err[0]
     op = Lv.op
+    if not L.valid_shapes(e):
+        return "generator artefact: child shapes do not match what the class documents"
     try:
         rep = op.representation()
         op.representation_tree()
@@ -448,6 +483,35 @@ def rg_plan(k, mode, salt, has_rhs):
     return out
 
 
+def sanitize(e, cell):
+    """CholLinearOperator(upper=True) differentiates the wrong matrix on the pinned tree (known finding, C14/C01): it is
+    exercised in the cells dedicated to Chol (root / child / special names it) and replaced by the equal lower-factor
+    instance elsewhere, so that it cannot mask other failures of the composite around it."""
+    chol_cell = "Chol" in (cell.get("root"), cell.get("child")) or "chol" in str(cell.get("special") or "")
+    id_cell = "Identity" in (cell.get("root"), cell.get("child")) or "identity" in str(cell.get("special") or "")
+    if chol_cell and id_cell:
+        return e
+
+    def walk(x):
+        if x["cls"] == "Identity" and not id_cell:     # same matrix without the pinned tree's spurious gradient slot
+            b = list(x.get("batch", []))
+            n1 = 1
+            for d in b:
+                n1 *= d
+            return {"cls": "ConstantDiag", "c": ob.T(b + [1], [1] * n1), "n": x["n"]}
+        if x["cls"] == "Chol" and x.get("upper") and not x["t"].get("expand") and not chol_cell:
+            t = ob.tt(x["t"]).mT.contiguous()
+            return {"cls": "Chol", "t": ob.from_torch(t), "upper": False}
+        y = dict(x)
+        if "ops" in y:
+            y["ops"] = [walk(k) for k in y["ops"]]
+        for k in L.CHILD_KEYS:
+            if isinstance(y.get(k), dict) and "cls" in y[k]:
+                y[k] = walk(y[k])
+        return y
+    return walk(e)
+
+
 def make_case(cell, seed):
     """cell + seed -> {expr, fn, fn_args, seed}; raises Ungenerated"""
     struct = {k: v for k, v in cell.items() if k != "idx"}
@@ -459,7 +523,7 @@ def make_case(cell, seed):
             e = gen_expr(rng, cell)
             if isinstance(e, tuple):
                 e = e[0]
-            e = L.reshare(e)
+            e = L.reshare(sanitize(e, cell))
             why = validate(e, cell, cell["fn"])
             if why is None:
                 shape = ob.shape_of(e)
